@@ -43,6 +43,14 @@ pub enum Op {
     CloneSwap,
     /// drop all kept copies
     DropCopies,
+    /// write back what a getter returns: `set_x(get_x())` for the setting family k (0 volume, 1 speed,
+    /// 2 alpha, 3 beta, 4 half tone, 5 every threshold, 6 every GV weight, 7 rate, 8 frame period).
+    /// For the exact getters this changes nothing; the volume getter is lossy (dB of a stored
+    /// linear gain), so the written-back value becomes the new volume
+    WriteBack(usize),
+    /// continue on a copy made with `Clone::clone_from` into another Condition object - a
+    /// never-loaded `Condition::default()` (no per-stream tables yet) or an earlier kept copy
+    CloneFrom,
     /// a valid interpolation-weight update (equal weights) on slot 0 = duration, 1 = parameter
     /// weights of the stream, 2 = GV weights of the stream: another setter family on the same
     /// Condition, which must leave every range-limited setting alone
@@ -262,7 +270,10 @@ impl Prop for SetterHistory {
                     let (slot, stream) = (t.below(3), t.below(nstream));
                     *t.pick(&[Op::CloneKeep, Op::CloneSwap, Op::InterpolationWeights(slot, stream), Op::InterpolationWeights(2, stream)])
                 }
-                11 => *t.pick(&[Op::CloneSwap, Op::DropCopies, Op::CloneKeep, Op::Reload]),
+                11 => {
+                    let k = if t.chance(0.5) { 0 } else { t.below(9) };
+                    *t.pick(&[Op::CloneSwap, Op::DropCopies, Op::CloneKeep, Op::Reload, Op::CloneFrom, Op::WriteBack(k), Op::WriteBack(k)])
+                }
                 0 => Op::Alpha(special_f64(t)),
                 1 => Op::Beta(special_f64(t)),
                 2 => Op::MsdThreshold(t.below(nstream), special_f64(t)),
@@ -392,6 +403,39 @@ impl Prop for SetterHistory {
                     kept.push((std::mem::replace(&mut cond, c2), model.clone(), i));
                 }
                 Op::DropCopies => kept.clear(),
+                Op::WriteBack(k) => match k {
+                    0 => {
+                        let g = cond.get_volume();
+                        cond.set_volume(g);
+                        model.volume_db = g;
+                    }
+                    1 => cond.set_speed(cond.get_speed()),
+                    2 => cond.set_alpha(cond.get_alpha()),
+                    3 => cond.set_beta(cond.get_beta()),
+                    4 => cond.set_additional_half_tone(cond.get_additional_half_tone()),
+                    5 => {
+                        for s in 0..n {
+                            cond.set_msd_threshold(s, cond.get_msd_threshold(s));
+                        }
+                    }
+                    6 => {
+                        for s in 0..n {
+                            cond.set_gv_weight(s, cond.get_gv_weight(s));
+                        }
+                    }
+                    7 => cond.set_sampling_frequency(cond.get_sampling_frequency()),
+                    _ => cond.set_fperiod(cond.get_fperiod()),
+                },
+                Op::CloneFrom => {
+                    // destination: the oldest kept copy if there is one (same shape, other values),
+                    // else a Condition that has never seen a voice
+                    let mut dest = match kept.first() {
+                        Some((k, _, _)) if i % 2 == 0 => k.clone(),
+                        _ => Condition::default(),
+                    };
+                    dest.clone_from(&cond);
+                    kept.push((std::mem::replace(&mut cond, dest), model.clone(), i));
+                }
                 Op::InterpolationWeights(slot, stream) => {
                     let stream = stream.min(n - 1);
                     let nv = engine.voices.len();
